@@ -24,61 +24,8 @@ import (
 	"verifharness/rig"
 	"verifharness/runner"
 	"verifharness/simnet"
+	"verifharness/wl"
 )
-
-type workload struct {
-	name    string
-	scripts func() []*prog.Script
-	wbuf    int
-	capn    int
-}
-
-func A(op byte, size int) prog.Act { return prog.Act{Op: op, Size: size} }
-
-var workloads = []workload{
-	{"unary-small", func() []*prog.Script {
-		return []*prog.Script{{Tag: 1, Unary: true, ReqSize: 20, Handler: []prog.Act{A('r', 0), A('s', 30)}}}
-	}, 0, -1},
-	{"unary-multiframe", func() []*prog.Script {
-		return []*prog.Script{{Tag: 1, Unary: true, ReqSize: 2500, Handler: []prog.Act{A('r', 0), A('s', 3000)}}}
-	}, 0, -1},
-	{"unary-metadata", func() []*prog.Script {
-		return []*prog.Script{{Tag: 1, Unary: true, ReqSize: 20, Meta: map[string]string{"k": "v", "trace": "abc"}, Handler: []prog.Act{A('r', 0), A('s', 30)}}}
-	}, 0, -1},
-	{"unary-handler-error", func() []*prog.Script {
-		return []*prog.Script{{Tag: 1, Unary: true, ReqSize: 20, Handler: []prog.Act{A('r', 0)}, Ret: &prog.ErrSpec{Msg: "nope", Code: 7}}}
-	}, 0, -1},
-	{"client-stream", func() []*prog.Script {
-		return []*prog.Script{{Tag: 1, Client: []prog.Act{A('s', 10), A('s', 1500), A('s', 0), A('h', 0), A('R', 0)}, Handler: []prog.Act{A('R', 0), A('s', 40)}}}
-	}, 0, -1},
-	{"server-stream", func() []*prog.Script {
-		return []*prog.Script{{Tag: 1, Client: []prog.Act{A('s', 10), A('h', 0), A('R', 0)}, Handler: []prog.Act{A('r', 0), A('s', 10), A('s', 1500), A('s', 0)}}}
-	}, 0, -1},
-	{"bidi-echo", func() []*prog.Script {
-		return []*prog.Script{{Tag: 1, Client: []prog.Act{A('s', 10), A('r', 0), A('s', 1200), A('r', 0), A('h', 0), A('R', 0)}, Handler: []prog.Act{A('r', 0), A('s', 11), A('r', 0), A('s', 1300), A('R', 0)}}}
-	}, 0, -1},
-	{"bidi-handler-error", func() []*prog.Script {
-		return []*prog.Script{{Tag: 1, Client: []prog.Act{A('s', 10), A('r', 0), A('s', 20), A('R', 0)}, Handler: []prog.Act{A('r', 0), A('s', 11)}, Ret: &prog.ErrSpec{Msg: "failed midway"}}}
-	}, 0, -1},
-	{"two-rpcs", func() []*prog.Script {
-		return []*prog.Script{
-			{Tag: 1, Unary: true, ReqSize: 20, Handler: []prog.Act{A('r', 0), A('s', 30)}},
-			{Tag: 2, Client: []prog.Act{A('s', 10), A('s', 10), A('h', 0), A('R', 0)}, Handler: []prog.Act{A('R', 0), A('s', 40)}, Meta: map[string]string{"a": "b"}},
-		}
-	}, 0, -1},
-	{"client-close-early", func() []*prog.Script {
-		return []*prog.Script{
-			{Tag: 1, Client: []prog.Act{A('s', 10), A('c', 0)}, Handler: []prog.Act{A('R', 0)}},
-			{Tag: 2, Unary: true, ReqSize: 5, Handler: []prog.Act{A('r', 0), A('s', 5)}},
-		}
-	}, 0, -1},
-	{"flush-per-frame-rendezvous", func() []*prog.Script {
-		return []*prog.Script{{Tag: 1, Client: []prog.Act{A('s', 1100), A('r', 0), A('h', 0), A('R', 0)}, Handler: []prog.Act{A('r', 0), A('s', 1100), A('R', 0)}}}
-	}, 1, 0},
-	{"rendezvous-unary-big", func() []*prog.Script {
-		return []*prog.Script{{Tag: 1, Unary: true, ReqSize: 6000, Handler: []prog.Act{A('r', 0), A('s', 6000)}}}
-	}, 0, 0},
-}
 
 type cell struct {
 	w      int
@@ -93,11 +40,11 @@ func (c cell) String() string {
 	if c.server {
 		end = "server"
 	}
-	return fmt.Sprintf("%s endpoint=%s fault=%s offset=%d chunk=%d", workloads[c.w].name, end, c.kind, c.offset, c.chunk)
+	return fmt.Sprintf("%s endpoint=%s fault=%s offset=%d chunk=%d", wl.Workloads[c.w].Name, end, c.kind, c.offset, c.chunk)
 }
 
-func mkConfig(w workload, chunk int, seed uint64) prog.Config {
-	m := drpcmanager.Options{WriterBufferSize: w.wbuf, Stream: drpcstream.Options{SplitSize: 1024}}
+func mkConfig(w wl.Workload, chunk int, seed uint64) prog.Config {
+	m := drpcmanager.Options{WriterBufferSize: w.Wbuf, Stream: drpcstream.Options{SplitSize: 1024}}
 	mk := func(i uint64) simnet.Chunker {
 		switch chunk {
 		case 1:
@@ -107,14 +54,14 @@ func mkConfig(w workload, chunk int, seed uint64) prog.Config {
 		}
 		return simnet.ChunkAll{}
 	}
-	return prog.Config{Net: simnet.Opts{Cap: w.capn, ChunkA: mk(1), ChunkB: mk(2)}, Client: m, Server: m, Desc: w.name}
+	return prog.Config{Net: simnet.Opts{Cap: w.Capn, ChunkA: mk(1), ChunkB: mk(2)}, Client: m, Server: m, Desc: w.Name}
 }
 
 // dryRun returns the outgoing byte counts and frame edges of both endpoints.
-func dryRun(w workload) (la, lb int64, ea, eb []int64, ok bool) {
-	x := prog.New(mkConfig(w, 0, 1), w.scripts())
+func dryRun(w wl.Workload) (la, lb int64, ea, eb []int64, ok bool) {
+	x := prog.New(mkConfig(w, 0, 1), w.Scripts())
 	defer x.Rig.Teardown()
-	x.Start([][]*prog.Script{w.scripts2(x)})
+	x.Start([][]*prog.Script{scripts2(w, x)})
 	if x.WaitClients() != "ready" {
 		return 0, 0, nil, nil, false
 	}
@@ -138,8 +85,8 @@ func dryRun(w workload) (la, lb int64, ea, eb []int64, ok bool) {
 	return la, lb, ea, eb, true
 }
 
-// scripts2 returns the script objects registered in x (same tags as w.scripts()).
-func (w workload) scripts2(x *prog.Exec) []*prog.Script {
+// scripts2 returns the script objects registered in x (same tags as w.Scripts()).
+func scripts2(w wl.Workload, x *prog.Exec) []*prog.Script {
 	var out []*prog.Script
 	for _, l := range x.Logs() {
 		out = append(out, l.Script)
@@ -148,15 +95,16 @@ func (w workload) scripts2(x *prog.Exec) []*prog.Script {
 }
 
 func runCell(id string, c cell) runner.Result {
-	w := workloads[c.w]
+	base := census.IDs(census.Snapshot())
+	w := wl.Workloads[c.w]
 	cfg := mkConfig(w, c.chunk, uint64(c.offset)+7)
-	x := prog.New(cfg, w.scripts())
+	x := prog.New(cfg, w.Scripts())
 	end := x.Rig.Pair.A
 	if c.server {
 		end = x.Rig.Pair.B
 	}
 	end.SetFault(simnet.Fault{Kind: c.kind, Offset: c.offset})
-	x.Start([][]*prog.Script{w.scripts2(x)})
+	x.Start([][]*prog.Script{scripts2(w, x)})
 	st := x.WaitClients()
 	if st == "watchdog" {
 		x.Rig.Teardown()
@@ -269,7 +217,7 @@ func runCell(id string, c cell) runner.Result {
 	x.Rig.Pair.A.Close()
 	x.Rig.Pair.B.Close()
 	_, snap = census.Quiesce(rig.Watchdog)
-	if left := census.InDRPC(snap); len(left) > 0 && len(fails) == 0 {
+	if left := census.NewSince(census.InDRPC(snap), base); len(left) > 0 && len(fails) == 0 {
 		failf("library goroutines left behind after the failure and Close:\n%s", census.Dump(left))
 	}
 	x.Rig.Teardown()
@@ -305,12 +253,12 @@ var readKinds = []simnet.FaultKind{simnet.FaultReadErr, simnet.FaultReadDataErr,
 func gen(tier string, seed uint64) []runner.Scenario {
 	var out []runner.Scenario
 	r := &payload.SplitMix{S: payload.Hash(seed, 0xC05)}
-	for wi, w := range workloads {
+	for wi, w := range wl.Workloads {
 		la, lb, ea, eb, ok := dryRun(w)
 		if !ok {
 			wi := wi
-			out = append(out, runner.Scenario{ID: "dry/" + w.name, Run: func() runner.Result {
-				return runner.Inconcl("dry/"+workloads[wi].name, "fault-free run did not complete")
+			out = append(out, runner.Scenario{ID: "dry/" + w.Name, Run: func() runner.Result {
+				return runner.Inconcl("dry/"+wl.Workloads[wi].Name, "fault-free run did not complete")
 			}})
 			continue
 		}
